@@ -46,7 +46,7 @@ def oracle_units(chk, progs, backends, tag, proj=emit.KINDS_ALL, steps_fn=None, 
 
 def C01(tier, seed):
     chk = Check('C01', tier, seed)
-    flat = [0, 1, 2, 3, 4]; hier = [0, 2, 3, 4]
+    flat = [0, 2, 3, 4]; hier = [0, 2, 3, 4]
     progs = [('F1', flat), ('R2', flat), ('H2', hier)]
     if tier == 'thorough': progs += [('R3', flat), ('H3', hier)]
     oracle_units(chk, progs, None, 'C01', proj=('G', 'A'), check_post=False)
